@@ -26,6 +26,24 @@ class C01(PropertyCheck):
         "quick": "all masks with >=1 unmasked pixel for every shape with H*W <= 9 (index ops) and H*W <= 6 (constructors)",
         "thorough": "all masks with >=1 unmasked pixel for every shape with H*W <= 14 (index ops) and H*W <= 9 (constructors)",
     }
+    modelled_functions = [
+        "autoarray/mask/mask_2d_util.py:native_index_for_slim_index_2d_from",
+        "autoarray/mask/mask_2d_util.py:mask_slim_indexes_from",
+        "autoarray/mask/mask_2d_util.py:total_pixels_2d_from",
+        "autoarray/structures/arrays/array_2d_util.py:array_2d_slim_from",
+        "autoarray/structures/arrays/array_2d_util.py:array_2d_native_from",
+        "autoarray/structures/arrays/array_2d_util.py:array_2d_via_indexes_from",
+        "autoarray/structures/arrays/array_2d_util.py:convert_array_2d",
+        "autoarray/structures/arrays/array_2d_util.py:check_array_2d_and_mask_2d",
+        "autoarray/structures/grids/grid_2d_util.py:convert_grid_2d",
+        "autoarray/structures/grids/grid_2d_util.py:grid_2d_slim_from",
+        "autoarray/structures/grids/grid_2d_util.py:grid_2d_native_from",
+        "autoarray/structures/arrays/array_1d_util.py:convert_array_1d",
+        "autoarray/structures/arrays/array_1d_util.py:array_1d_slim_from",
+        "autoarray/structures/arrays/array_1d_util.py:array_1d_native_from",
+        "autoarray/structures/arrays/array_1d_util.py:array_1d_via_indexes_1d_from",
+        "autoarray/mask/mask_1d_util.py:native_index_for_slim_index_1d_from",
+    ]
     trusted_extra = ["numpy broadcasting `*=`/`stack` glue in the constructors is covered by correspondence only"]
 
     # ------------------------------------------------------------------ generation
